@@ -92,8 +92,11 @@ def enc_v2(rng):
             struct.pack('!HH', rng.randrange(65536), rng.randrange(65536))
     elif kind == 'unix':
         fp = rng.choice([0x31, 0x32])
-        p1 = b'/var/run/src%d.sock' % rng.randrange(100)
-        p2 = b'/var/run/dst.sock'
+        p1 = rng.choice([b'/var/run/src%d.sock' % rng.randrange(100),
+                         b'\0abstract%d' % rng.randrange(100),
+                         b'/run/a\0b%d' % rng.randrange(100),
+                         b'x' * 108])
+        p2 = rng.choice([b'/var/run/dst.sock', b'\0dst-abstract'])
         addr = p1.ljust(108, b'\0') + p2.ljust(108, b'\0')
     else:
         fp = 0x00
